@@ -14,7 +14,7 @@ from mcx.ref import exmap as xm
 from mcx.seams import owned_random
 
 SCALES = (0.5, 1.0, 2.0, 0.0)            # 0: every mapped atom collapses onto its anchor
-TARGETS = (('near', 0), ('between', 3), ('far', 2))        # size 0 = number of anchors + 1
+TARGETS = (('near', 0), ('between', 3), ('far', 2), ('onanchor', 0))        # size 0 = number of anchors + 1
 BASES = ('construct', 'genA', 'genB', 'colz', 'col111')
 DKS = ('small', 'second', 'tiny')                           # second = axial on exactly collinear bases, else large;
                                                             # tiny = 1e-7 nm, applied right after the base conformation
@@ -292,6 +292,9 @@ class C03(Check):
                     via_ref = emap(ref).atoms_positions
                 except Exception as ex:
                     R.violation(f'exception/{sig}', dict(bdesc, j=-1), repr(ex))
+            if base == 'genB':
+                # the public attribute is assigned its own value between two calls: nothing may change
+                emap.scale_factor = s
             out0 = apply(bpos, dict(bdesc, j=-1), f'{cls0}/{base}', sig, keep=True)
             if out0 is not None and base == 'genA' and 'add' not in case:
                 if via_ref is not None and not np.array_equal(via_ref, out0):
